@@ -72,7 +72,7 @@ pub fn run_batch(prop: Prop, seed: u64, first: u64, runs: u64, threads: usize, k
                         let idx = idx1 - 1;
                         let scn = generate(prop, seed, idx);
                         let sig = format!("hang/{}", scn.world);
-                        let rp = Replay { property: prop.id().into(), signature: sig.clone(), detail: format!("run {} did not finish within {} ms", idx, limit_ms), origin: format!("seed={} run={}", seed, idx), scenario: scn };
+                        let rp = Replay { property: prop.id().into(), signature: sig.clone(), detail: format!("run {} did not finish within {} ms", idx, limit_ms), origin: format!("seed={} run={}", seed, idx), digest: None, scenario: scn };
                         let path = format!("{}/replays/{}-hang-{}.replay", verif_dir(), prop.id(), idx);
                         let _ = std::fs::create_dir_all(format!("{}/replays", verif_dir()));
                         let _ = std::fs::write(&path, rp.to_text());
@@ -316,10 +316,13 @@ pub fn check(o: &CheckOpts) -> i32 {
             return 2;
         }
         let (min, tries) = minimise(&scn, prop, sig, 2000);
-        let det2 = harness_catch(|| execute(&min, prop)).ok().and_then(|c| c.violations.into_iter().find(|v| &v.sig == sig)).map(|v| v.detail).unwrap_or(detail.clone());
+        let min_ctx = harness_catch(|| execute(&min, prop)).ok();
+        let min_digest = min_ctx.as_ref().map(|c| c.digest);
+        let det2 = min_ctx.and_then(|c| c.violations.into_iter().find(|v| &v.sig == sig)).map(|v| v.detail).unwrap_or(detail.clone());
         let rp = Replay {
             property: prop.id().into(),
             signature: sig.clone(),
+            digest: min_digest,
             detail: det2.clone(),
             origin: format!("VERIF_SEED={} run={} world={} items {}->{} after {} re-executions", o.seed, idx, scn.world, scn.items.len(), min.items.len(), tries),
             scenario: min,
@@ -333,7 +336,7 @@ pub fn check(o: &CheckOpts) -> i32 {
         let exe = std::env::current_exe().unwrap();
         let out = std::process::Command::new(exe).arg("replay").arg(&path).output();
         let ok = match out {
-            Ok(o) => o.status.code() == Some(1) && String::from_utf8_lossy(&o.stdout).contains(&format!("REPRODUCED signature={}", sig)),
+            Ok(o) => o.status.code() == Some(1) && String::from_utf8_lossy(&o.stdout).contains(&format!("REPRODUCED signature={}", sig)) && String::from_utf8_lossy(&o.stdout).contains("digest-match=yes"),
             Err(_) => false,
         };
         if !ok {
@@ -472,11 +475,29 @@ pub fn replay(path: &str) -> i32 {
             return 2;
         }
     };
-    let ctx = match harness_catch(|| execute(&rp.scenario, prop)) {
-        Ok(c) => c,
-        Err(loc) => {
+    // the execution runs in its own thread so that a hang can be declared (real clock used only for that)
+    let limit_ms: u64 = std::env::var("WIRESIM_HANG_MS").ok().and_then(|v| v.parse().ok()).unwrap_or(60_000);
+    let (tx, rx) = std::sync::mpsc::channel();
+    let scn = rp.scenario.clone();
+    std::thread::spawn(move || {
+        let _ = tx.send(harness_catch(|| execute(&scn, prop)));
+    });
+    let ctx = match rx.recv_timeout(std::time::Duration::from_millis(limit_ms)) {
+        Ok(Ok(c)) => c,
+        Ok(Err(loc)) => {
             eprintln!("HARNESS-ERROR: harness panic at {} while replaying", loc);
             return 2;
+        }
+        Err(_) => {
+            let sig = format!("hang/{}", rp.scenario.world);
+            println!("replay: property={} world={} did not finish within {} ms", rp.property, rp.scenario.world, limit_ms);
+            if rp.signature == sig || rp.signature.is_empty() {
+                println!("REPRODUCED signature={} digest-match=yes", sig);
+                println!("VIOLATION property={} replay={}", rp.property, path);
+                std::process::exit(1);
+            }
+            println!("NOT-REPRODUCED signature={} (hang instead)", rp.signature);
+            std::process::exit(1);
         }
     };
     println!("replay: property={} world={} items={} digest={:016x}", rp.property, rp.scenario.world, rp.scenario.items.len(), ctx.digest);
@@ -488,7 +509,15 @@ pub fn replay(path: &str) -> i32 {
         }
     }
     if hit {
-        println!("REPRODUCED signature={}", if rp.signature.is_empty() { ctx.violations[0].sig.clone() } else { rp.signature.clone() });
+        let dm = match rp.digest {
+            Some(d) if d != ctx.digest => "no",
+            _ => "yes",
+        };
+        println!("REPRODUCED signature={} digest-match={}", if rp.signature.is_empty() { ctx.violations[0].sig.clone() } else { rp.signature.clone() }, dm);
+        if dm == "no" {
+            eprintln!("HARNESS-ERROR: replay reproduced the signature but with a different event-log digest ({:016x} vs recorded {:016x})", ctx.digest, rp.digest.unwrap_or(0));
+            return 2;
+        }
         println!("VIOLATION property={} replay={}", rp.property, path);
         1
     } else {
